@@ -306,6 +306,11 @@ def directed(recvs, by_name, k):
                 F("own", L("u8"), rename="Self", multiple=True), F("plain", O(L("bool")))])
     add_enum([{"ident": "Krate", "style": "unit", "rename": "crate"}, {"ident": "Own", "style": "newtype", "rename": "self", "fields": [F("0", L("u8"))]},
               {"ident": "Upper", "style": "struct", "rename": "super", "fields": [F("n", L("u8"), rename="crate")]}])
+    # a flatten member inside a struct VARIANT (the variant arm has its own code path for the flatten hand-off)
+    add_enum([{"ident": "Wide", "style": "struct", "fields": [F("level", L("u8")), F("rest", Rv(mode_holder), flatten=True)]},
+              {"ident": "Thin", "style": "struct", "fields": [F("note", O(L("String"))), F("more", Rv(deep), flatten=True)]},
+              {"ident": "Off", "style": "unit"}])
+    add_enum([{"ident": "Only", "style": "struct", "fields": [F("every", Rv(mode_holder), flatten=True)]}], auk=True, rule="SCREAMING_SNAKE_CASE")
     # newtype receivers under every container-level post-transform (the generated from_meta of a newtype has its own shape)
     for post in (None, [False, "cm_id"], [True, "ca_ok"], [True, "ca_fail"]):
         for inner in (L("u8"), O(L("String")), Rv(deep)):
